@@ -25,7 +25,7 @@ struct PoolRun {
     U16 key() const { U16 s = strOf((int)(R.uarg("k") % 14)); if (R.op->str("op") == "get_ptr_n" && !s.empty()) s = s.substr(0, 1 + R.uarg("n") % s.size()); return s; }
     void skip() { R.res.count("skipped-ops"); R.tr.ev("skip " + R.kind); }
     void step() {
-        const std::string o = R.op->str("op"); R.kind = o;
+        const std::string o = R.op->str("op"); R.kind = o; R.opChanged = true;
         R.stateClass = m.empty() ? "empty" : m.size() < 4 ? "few" : "many";
         PtrMap post = m; const U16 k = key(); const XalanDOMString* got = 0; const bool known = m.count(k) != 0;
         if (o == "get_str" || o == "get_ptr" || o == "get_ptr_n") {
@@ -66,7 +66,7 @@ struct HashTableRun {
     }
     void skip() { R.res.count("skipped-ops"); R.tr.ev("skip " + R.kind); }
     void step() {
-        const std::string o = R.op->str("op"); R.kind = o; R.stateClass = count == 0 ? "empty" : count < buckets ? "sparse" : "crowded";
+        const std::string o = R.op->str("op"); R.kind = o; R.opChanged = true; R.stateClass = count == 0 ? "empty" : count < buckets ? "sparse" : "crowded";
         const U16 k = strOf((int)(R.uarg("k") % 14)); PtrMap post = first; size_t postCount = count;
         if (o == "insert" || o == "insert_idx") {
             owned.emplace_back(new TmpStr(k, R.mm)); const XalanDOMString& s = owned.back()->s;
@@ -105,7 +105,7 @@ struct BitmapRun {
     }
     void skip() { R.res.count("skipped-ops"); R.tr.ev("skip " + R.kind); }
     void step() {
-        const std::string o = R.op->str("op"); R.kind = o; const size_t n = m.size();
+        const std::string o = R.op->str("op"); R.kind = o; R.opChanged = true; const size_t n = m.size();
         R.stateClass = n == 0 ? "zero-bits" : n % 8 == 0 ? "whole-units" : "partial-last-unit";
         if (o == "clear_all") { m.assign(n, false); R.call([&] { bm->clearAll(); }); }
         else {
@@ -132,7 +132,7 @@ struct CacheRun {
     }
     void skip() { R.res.count("skipped-ops"); R.tr.ev("skip " + R.kind); }
     void step() {
-        const std::string o = R.op->str("op"); R.kind = o;
+        const std::string o = R.op->str("op"); R.kind = o; R.opChanged = true;
         R.stateClass = std::string(avail.empty() ? "none-available" : "some-available") + (out.empty() ? "+none-out" : "+some-out");
         if (o == "get") {
             XalanDOMString* g = 0; R.kind = avail.empty() ? "get-creates" : "get-reuses";
